@@ -7,7 +7,7 @@ import socket as _rs
 from .. import rfc6455 as R
 from ..harness import S, Result, InvalidScenario, exc_name
 from ..kernel import SimAbort
-from ..peers import BasePeer
+from ..peers import BasePeer, WSPeer
 from ..runner import derive_seed
 from ..world import World
 
@@ -15,9 +15,12 @@ ID = "C09"
 LEVEL = "fault_enumeration"
 RULE = ("scenario = redirect chain of 0..5 hops (each its own simulated host) x redirect_limit 0..4/default x final "
         "response head (status; Upgrade / Connection present, missing, mixed case, padded, in token lists, look-alike; "
-        "accept right / wrong / missing / for the previous hop's key / RFC sample / one character changed; subprotocol "
+        "accept right / wrong / missing / for the previous hop's key / RFC sample / one character changed; status token "
+        "that is not the three digits 101 (+101, 0101, 1_0_1, full-width digits, 000 followed by a header line that looks like "
+        "a status line ...); subprotocol "
         "offered x selected right / wrong / missing) x fault (end of stream or receive timeout at a byte position of "
-        "the response head of any hop).  Oracle = independent predicate on what the peers received and sent.  "
+        "the response head of any hop) x object history (fresh; already connected to another server; connected and "
+        "closed).  Oracle = independent predicate on what the peers received and sent.  "
         "Enumerated completely: every byte position of a standard head, of a redirect head and of a subprotocol head "
         "as eof point and as timeout point (quick: every 3rd position of generated heads; thorough: every position of "
         "every generated head); all chain lengths 0..5 x limits 0..4.  non-trivial = a fault was injected or the "
@@ -112,7 +115,11 @@ class HSPeer(BasePeer):
             r = random.Random(sp["shuffle"])
             r.shuffle(hdrs)
         sep = sp.get("sep", ": ")
-        out = [f"HTTP/1.1 {st} {sp.get('reason', 'X')}".encode()]
+        # 'status_raw': the status token as sent (the peer itself behaves as if it had upgraded); 'first_lines': raw
+        # header lines placed directly after the status line
+        out = [f"HTTP/1.1 {sp.get('status_raw', st)} {sp.get('reason', 'X')}".encode("utf-8")]
+        for ln in sp.get("first_lines", ()):
+            out.append(ln.encode("latin-1"))
         for k, v in hdrs:
             out.append(f"{k}{sep}{v}".encode("latin-1"))
         return b"\r\n".join(out) + b"\r\n\r\n"
@@ -143,6 +150,12 @@ class HSPeer(BasePeer):
         if v == "key_itself":
             return self.key or "x"
         raise InvalidScenario("accept variant")
+
+
+# status tokens that are not the three ASCII digits 101 although a lenient integer conversion may say 101 (or 0, which a
+# parser using "no status yet" as its loop condition takes as "keep looking")
+STATUS_TOKENS = ("+101", "0101", "00101", "1_0_1", "10_1", "\uff11\uff10\uff11", "\u0661\u0660\u0661", "101.0", "1e2", "000", "0", "00", "-0", "+0",
+                 "0x65", " 101", "101\t")
 
 
 def host(i):
@@ -234,6 +247,19 @@ def expand(item, seed):
                 yield {"hops": [_final(status=st, accept=a, location=f"ws://{host(1)}/x") if st in REDIRECTS
                                 else _final(status=st, accept=a)] + ([_final()] if st in REDIRECTS else []),
                        "limit": None, "subprotocols": None, "api": "connect", "fault": None, "timeout": 2 * S, "seed": 1}
+        for tok in STATUS_TOKENS:
+            for fl in ([], ["Retry-After: 101 seconds"], ["X-Code: 101"]):
+                for n in (0, 1):
+                    yield {"hops": _chain(n, _final(status_raw=tok, first_lines=fl)), "limit": None, "subprotocols": None, "api": "connect",
+                           "fault": None, "timeout": 2 * S, "seed": 1}
+        for prior in ("connected", "closed"):
+            for final in (_final(), _final(accept="wrong"), _final(status=404), _final(upgrade="missing"), _final(status_raw="000")):
+                for n in (0, 1):
+                    yield {"hops": _chain(n, final), "limit": None, "subprotocols": None, "api": "connect", "fault": None,
+                           "timeout": 2 * S, "seed": 1, "prior": prior}
+            for pos in range(0, 150, 7):
+                yield {"hops": _chain(0, _final()), "limit": None, "subprotocols": None, "api": "connect",
+                       "fault": {"kind": "eof", "hop": 0, "pos": pos}, "timeout": 2 * S, "seed": 1, "prior": prior}
         for offered in (["chat"], ["chat", "superchat"], ["Chat"]):
             for sel in (None, "chat", "CHAT", "superchat", "other", "chat, superchat", ""):
                 yield {"hops": [_final(proto=sel)], "limit": None, "subprotocols": offered, "api": "connect",
@@ -270,6 +296,10 @@ def gen(rng):
         final["upgrade"] = rng.choice(list(UPGRADE_VARIANTS))
         final["connection"] = rng.choice(list(CONNECTION_VARIANTS))
         final["accept"] = rng.choice(ACCEPT_VARIANTS)
+    if rng.random() < 0.06 and final["status"] == 101:
+        final["status_raw"] = rng.choice(STATUS_TOKENS)
+        if rng.random() < 0.5:
+            final["first_lines"] = [rng.choice(("Retry-After: 101 seconds", "X-Code: 101", "Warning: 101 x"))]
     if rng.random() < 0.3:
         final["upgrade_name"] = rng.choice(("upgrade", "UPGRADE", "Upgrade"))
         final["connection_name"] = rng.choice(("connection", "CONNECTION"))
@@ -289,8 +319,11 @@ def gen(rng):
     fault = None
     if rng.random() < 0.4:
         fault = {"kind": rng.choice(("eof", "timeout")), "hop": rng.randrange(len(hops)), "pos": rng.randrange(0, 200)}
-    return {"hops": hops, "limit": limit, "subprotocols": sub, "api": rng.choice(("connect", "connect", "create_connection")),
-            "fault": fault, "timeout": 2 * S, "seed": rng.randrange(1 << 30)}
+    sc = {"hops": hops, "limit": limit, "subprotocols": sub, "api": rng.choice(("connect", "connect", "create_connection")),
+          "fault": fault, "timeout": 2 * S, "seed": rng.randrange(1 << 30)}
+    if sc["api"] == "connect" and rng.random() < 0.15:
+        sc["prior"] = rng.choice(("connected", "closed"))
+    return sc
 
 
 def run(sc, choices=None):
@@ -318,6 +351,13 @@ def run(sc, choices=None):
                     raise InvalidScenario(key)
             if h.get("accept", "right") not in ACCEPT_VARIANTS:
                 raise InvalidScenario("accept")
+            if h.get("status_raw") is not None and (h["status_raw"] not in STATUS_TOKENS or st != 101 or i != len(hops) - 1):
+                raise InvalidScenario("status_raw")
+            if any((not isinstance(x, str)) or "\n" in x or "\r" in x for x in h.get("first_lines", ())):
+                raise InvalidScenario("first_lines")
+        prior = sc.get("prior")
+        if prior not in (None, "connected", "closed") or (prior and sc.get("api") == "create_connection"):
+            raise InvalidScenario("prior")
         T = int(sc.get("timeout", 2 * S))
         if T < 1024:
             raise InvalidScenario("timeout")
@@ -328,6 +368,10 @@ def run(sc, choices=None):
     for i, h in enumerate(hops):
         w.net.add_host(host(i), [(_rs.AF_INET, addr(i))])
         w.net.listen(addr(i), 80, (lambda conn, i=i, h=h: HSPeer(w, i, h, fault, registry)))
+    # 'prior': the object under test has already been used for a successful connection to another (correct) server, and
+    # is either still connected or has been closed, when connect() is called on it
+    w.net.add_host("prior.sim.test", [(_rs.AF_INET, "10.2.0.200")])
+    w.net.listen("10.2.0.200", 80, lambda conn: WSPeer(w, {}))
     outcome = None
     obj = None
     with w:
@@ -338,6 +382,7 @@ def run(sc, choices=None):
         if sub:
             opts["subprotocols"] = list(sub)
         holder = []
+        before = set()
 
         class Cap(ws.WebSocket):
             def __init__(self, *a, **kw):
@@ -350,6 +395,11 @@ def run(sc, choices=None):
             else:
                 obj = Cap()
                 obj.settimeout(T / S)
+                if prior:
+                    obj.connect("ws://prior.sim.test/")
+                    if prior == "closed":
+                        obj.close(timeout=1)
+                    before = {s_.fd for s_ in w.net.sockets}
                 obj.connect(f"ws://{host(0)}/start", **opts)
             outcome = ("ok",)
         except SimAbort:
@@ -361,7 +411,9 @@ def run(sc, choices=None):
         status = obj.status if obj is not None else None
         has_sock = obj is not None and obj.sock is not None
         subproto = obj.subprotocol if obj is not None and outcome[0] == "ok" else None
-        open_socks = [s.fd for s in w.net.sockets if not s.closed]
+        # transports opened by the call under test (a still-open earlier connection of a re-used object is not this
+        # call's to close)
+        open_socks = [s.fd for s in w.net.sockets if not s.closed and s.fd not in before]
     res.absorb(w)
     # ---------------------------------------------------------------- independent predicate
     contacted = [p for p in registry if p.request is not None]
@@ -378,6 +430,8 @@ def run(sc, choices=None):
         sel = sp.get("proto")
         if st != 101:
             why_invalid = f"status {st}"
+        elif sp.get("status_raw") is not None and sp["status_raw"] != "101":
+            why_invalid = f"status token {sp['status_raw']!r} is not 101"
         elif not _good(UPGRADE_VARIANTS, sp.get("upgrade", "std"), "websocket"):
             why_invalid = "Upgrade header does not announce websocket"
         elif not _good(CONNECTION_VARIANTS, sp.get("connection", "std"), "upgrade"):
@@ -393,7 +447,7 @@ def run(sc, choices=None):
         why_invalid = f"response cut by {fault['kind']} at byte {fault['pos']}"
     ctx_fault = "none" if fault is None or not faulted else fault["kind"]
     cls = _variant_class(hops[-1], sub)
-    ctx = f"{'redirects' if len(hops) > 1 else 'direct'}/{ctx_fault}"
+    ctx = f"{'redirects' if len(hops) > 1 else 'direct'}/{ctx_fault}" + (f"/reused_{prior}" if prior else "")
     if outcome[0] == "abort":
         res.violate("connect_hangs", ctx, f"connect did not finish: {outcome[1]}")
     elif outcome[0] == "ok":
@@ -425,7 +479,7 @@ def run(sc, choices=None):
     pcls = None
     if fault is not None and faulted:
         pcls = "status_line" if fault["pos"] < 15 else ("end" if last and fault["pos"] >= len(last.full_head) - 4 else "headers")
-    res.sig = repr((len(hops) - 1, limit, cls, ctx_fault, pcls, outcome[0] == "ok", sc.get("api")))
+    res.sig = repr((len(hops) - 1, limit, cls, ctx_fault, pcls, outcome[0] == "ok", sc.get("api"), prior))
     if redirects_followed:
         res.probes["redirect_followed"] = redirects_followed
     if len(hops) - 1 > eff_limit:
@@ -439,6 +493,8 @@ def _variant_class(final, sub):
     parts = []
     if final.get("status", 101) != 101:
         parts.append(f"status{final['status']}")
+    if final.get("status_raw") is not None:
+        parts.append("status_raw=" + ascii(final["status_raw"]) + ("+line" if final.get("first_lines") else ""))
     for key in ("upgrade", "connection", "accept"):
         v = final.get(key, "std" if key != "accept" else "right")
         if v not in ("std", "right"):
